@@ -19,7 +19,7 @@ Fixpoint last_out_q (C : ccallees) (q : request) (ops : list Corr.C05.op) (last 
 Fixpoint last_out_r (C : ccallees) (x : response) (ops : list Corr.C05.op) (last : option bytes) : option bytes :=
   match ops with
   | [] => last
-  | Corr.C05.OpPrepare now :: r => match r_prepare C D29_VARIANT now x with Some x' => last_out_r C x' r last | None => None end
+  | Corr.C05.OpPrepare now :: r => match r_prepare C D59_VARIANT D29_VARIANT now x with Some x' => last_out_r C x' r last | None => None end
   | Corr.C05.OpChunked c :: r => match Composer.set_chunked c (r_hdrs x) (r_body x) with Some (h, b) => last_out_r C (r_with x h b) r last | None => None end
   | Corr.C05.OpCompose :: r => let (o, x') := r_compose C CODING_VARIANT x in last_out_r C x' r (Some o)
   end.
